@@ -11,6 +11,7 @@ import ast
 from typing import Iterable
 
 from ..core import astutil as A
+from ..core.loader import AnalysisError
 from ..core import callgraph as CG
 from ..core.report import norm
 
@@ -119,17 +120,27 @@ def instance_from_bytes(ctx, rule: str, modules: Iterable[str]) -> int:
     prog, chk = ctx.prog, ctx.chk
     mods = set(modules)
     n = 0
+
+    def offending(fn_node):
+        params = {a.arg for a in fn_node.args.args + fn_node.args.kwonlyargs}
+        for c in ast.walk(fn_node):
+            if not (isinstance(c, ast.Call) and isinstance(c.func, ast.Attribute) and c.func.attr == "from_bytes" and len(c.args) + len(c.keywords) in (1, 2, 3)):
+                continue
+            r = c.func.value
+            hit = False
+            if isinstance(r, ast.Name) and r.id != "int" and (r.id in params or r.id.islower()) and not r.id[:1].isupper():
+                # a lower-case local / parameter as receiver: an instance, not a class (CamelCase names are classes with their own from_bytes)
+                hit = any(isinstance(x, ast.Name) and x.id == r.id and isinstance(x.ctx, ast.Store) for x in ast.walk(fn_node)) or r.id in params
+            yield c, r, hit
+    # embedded positive example
+    pos = ast.parse("def f(value, raw):\n    a = int.from_bytes(raw, 'big')\n    return value.from_bytes(raw, 'little')\n").body[0]
+    if [h for _c, _r, h in offending(pos)] != [False, True]:
+        raise AnalysisError("from-bytes-class: embedded positive example no longer matches")
     for fn in CG.all_functions(prog):
         if fn.module.relpath not in mods:
             continue
-        params = {a.arg for a in fn.node.args.args + fn.node.args.kwonlyargs}
-        for c in ast.walk(fn.node):
-            if not (isinstance(c, ast.Call) and isinstance(c.func, ast.Attribute) and c.func.attr == "from_bytes" and len(c.args) + len(c.keywords) in (1, 2, 3)):
-                continue
+        for c, r, hit in offending(fn.node):
             n += 1
-            r = c.func.value
-            if isinstance(r, ast.Name) and r.id != "int" and (r.id in params or r.id.islower()) and not r.id[:1].isupper():
-                # a lower-case local / parameter as receiver: an instance, not a class (CamelCase names are classes with their own from_bytes)
-                if any(isinstance(x, ast.Name) and x.id == r.id and isinstance(x.ctx, ast.Store) for x in ast.walk(fn.node)) or r.id in params:
-                    chk.bad(rule, fn.qual, f"`{norm(c)[:80]}` calls from_bytes on the value `{r.id}` itself", "int.from_bytes(...)", A.loc(fn.module.relpath, c))
+            if hit:
+                chk.bad(rule, fn.qual, f"`{norm(c)[:80]}` calls from_bytes on the value `{r.id}` itself", "int.from_bytes(...)", A.loc(fn.module.relpath, c))
     return n
